@@ -373,3 +373,9 @@ package cryptobyte
 //@ loop 1 invariant forall(j, i+1, child.pendingLenLen, child.result[child.offset + j] == (length / spec.pow2f(8*(child.pendingLenLen - 1 - j))) % 256)
 //@ loop 1 invariant forall(j, 0, len(child.result), implies(j < child.offset || j >= child.offset + child.pendingLenLen, child.result[j] == before(child.result[j])))
 //@ loop 1 invariant 0 <= child.offset && child.offset + child.pendingLenLen <= len(child.result)
+// the length octets written by the loop, spelled out per prefix width (instances of the invariant the postconditions need)
+//@ assert_at "if l != 0 {" implies(child.pendingLenLen >= 1, child.result[child.offset + child.pendingLenLen - 1] == length % 256)
+//@ assert_at "if l != 0 {" implies(child.pendingLenLen >= 2, child.result[child.offset + child.pendingLenLen - 2] == (length / 256) % 256)
+//@ assert_at "if l != 0 {" implies(child.pendingLenLen >= 3, child.result[child.offset + child.pendingLenLen - 3] == (length / 65536) % 256)
+//@ assert_at "if l != 0 {" implies(child.pendingLenLen >= 4, child.result[child.offset + child.pendingLenLen - 4] == (length / 16777216) % 256)
+//@ assert_at "if l != 0 {" l == length / spec.pow2f(8 * child.pendingLenLen)
